@@ -437,4 +437,9 @@ AC_HOSTILE = [
     b'a ' + b'x' * 4094, b'a ' + b'x' * 4093, b'a ' + b'x ' * 3000, b'"' + b'a' * 5000, b'a "' + b'\\' * 4093, b'a "' + b'\\' * 4092 + b'"',
     b'<a>\n' * 300, b'<a>\n' * 300 + b'</a>\n' * 300, b'<a>\n' * 255 + b'a\n' + b'</a>\n' * 255, b'<a>\n' * 256 + b'a\n' + b'</a>\n' * 256,
 ]
+# lines that end up in an error message (unregistered option, unknown section, wrong close, unbalanced bracket, wrong argument type),
+# of every length around the sizes a fixed message buffer would have
+for _L in (60, 100, 120, 127, 128, 150, 180, 200, 220, 230, 240, 250, 254, 255, 256, 257, 300, 511, 512, 1000, 1023, 1024, 2000, 4000, 4090):
+    AC_HOSTILE += [b'Z' * _L + b' v', b'Z v' + b'w' * _L, b'<' + b'c' * _L + b'>\n</' + b'c' * _L + b'>', b'<a>\n</' + b'b' * _L + b'>', b'<a ' + b'q' * _L,
+                   b'1 ' + b'n' * _L + b' x', b'<a>\n' + b'Y' * _L + b'\n</a>']
 AC_C17_TABLE = [(b'a', mk_take(None), 1, 2, 0), (b'1', mk_take(None, [3, 1], aa=2), 1, 0, 0)]
